@@ -61,9 +61,12 @@ class ModelDriver:
         m = self.model
         try:
             if op == 'AddAsset':
-                cls = getattr(self.ctx.ns, act['T'])
-                obj = cls(name=act['reqName']) if act['reqName'] != 'NONE' else cls()
-                self.bind(act['h'], obj)
+                if act['h'] in self.objs:
+                    obj = self.objs[act['h']]          # an object the caller got back earlier (removed / rejected)
+                else:
+                    cls = getattr(self.ctx.ns, act['T'])
+                    obj = cls(name=act['reqName']) if act['reqName'] != 'NONE' else cls()
+                    self.bind(act['h'], obj)
                 kw = {}
                 if act['reqId'] != NOID:
                     kw['asset_id'] = act['reqId']
@@ -75,11 +78,14 @@ class ModelDriver:
             elif op == 'SetAssetExtras':
                 self.objs[act['h']].extras = {'k': act['x']}
             elif op == 'AddAssociation':
-                decl = self.L['assocs'][act['cls'] - 1]
-                a = self.ctx.assoc_class(act['cls'])()
-                self.bind(act['h'], a)
-                setattr(a, decl['lf'], [self.objs[x] for x in act['l']])
-                setattr(a, decl['rf'], [self.objs[x] for x in act['r']])
+                if act['h'] in self.objs:
+                    a = self.objs[act['h']]            # handed in again as it is
+                else:
+                    decl = self.L['assocs'][act['cls'] - 1]
+                    a = self.ctx.assoc_class(act['cls'])()
+                    self.bind(act['h'], a)
+                    setattr(a, decl['lf'], [self.objs[x] for x in act['l']])
+                    setattr(a, decl['rf'], [self.objs[x] for x in act['r']])
                 m.add_association(a)
             elif op == 'RemoveAssociation':
                 m.remove_association(self.objs[act['h']])
@@ -88,8 +94,11 @@ class ModelDriver:
             elif op == 'SetAssocExtras':
                 self.objs[act['h']].extras = {'k': act['x']}
             elif op == 'AddAttacker':
-                t = AttackerAttachment() if act['reqName'] == 'NONE' else AttackerAttachment(name=act['reqName'])
-                self.bind(act['h'], t)
+                if act['h'] in self.objs:
+                    t = self.objs[act['h']]
+                else:
+                    t = AttackerAttachment() if act['reqName'] == 'NONE' else AttackerAttachment(name=act['reqName'])
+                    self.bind(act['h'], t)
                 if act['reqId'] != NOID:
                     m.add_attacker(t, attacker_id=act['reqId'])
                 else:
@@ -232,6 +241,8 @@ class Adapter:
             exp = norm_expected(step['obs'])
             pre_live_ids = {a['id'] for a in (prev['assets'] if prev else [])}
             pre_live_names = {a['name'] for a in (prev['assets'] if prev else [])}
+            if act['op'] in ('AddAsset', 'AddAssociation', 'AddAttacker') and act.get('h') in drv.objs:
+                res['features'].append('readd_' + act['op'][3:].lower() + ('' if act['res'] == 'ok' else '_rejected'))
             got = drv.apply(act)
             res['steps'] += 1
             res['features'].extend(features_of(act, prev))
